@@ -47,7 +47,7 @@ def jobs(tier):
     # block-API programs and lazy selection with comparing branches: the final variables are uniquely determined
     from . import cat_c09
     for e in cat_c09.build(8, tier):
-        if "c09out" in e.tags and e.tags & {"if_else", "elif", "elif2", "elif_cmp", "lazy", "lazy_cmp_branches", "nested"}:
+        if "c09out" in e.tags and e.tags & {"if_else", "elif", "elif2", "elif_cmp", "lazy", "lazy_cmp_branches", "nested", "for_pub_secretbreak", "for_break"}:
             js.append(dict(name="%s/n4/plain" % e.name, entry=e.name, backend="snarkjs", catalogue="checks.cat_c09",
                            cfg=dict(n=4, r=2, guard=None, bound=None), tier=tier, weight=4))
     return js
